@@ -435,6 +435,23 @@ def run_batch(cases: list[tuple[CaseRun, dict]], res: LoopResult, counters: dict
             counters["req"][kind_of(req)] += 1
             if ans.startswith("raise"):
                 counters["raise_at"][kind_of(req) + ":" + ans.split()[1].split(":")[0]] += 1
+            rk = kind_of(req)
+            if rk == "strategy" and ans.startswith("delay"):
+                rt, tok = req.split(), ans.split()[1]
+                rem = rt[7] if rt[2] == "ctx" else "*"
+                if tok in ("nan", "inf", "-inf"):
+                    counters["boundary"]["strategy=" + tok] += 1
+                elif rem != "*":
+                    d, r = int(tok), int(rem)
+                    counters["boundary"]["strategy " + ("<0" if d < 0 else "=0" if d == 0 else "<remaining" if d < r
+                                                         else "=remaining" if d == r else ">remaining")] += 1
+            elif rk == "sleeper" and ans.startswith("unit"):
+                d, dur = int(req.split()[2]), int(ans.split()[1])
+                counters["boundary"]["sleeper " + ("returns early" if dur < d else "exact" if dur == d else "overshoots")] += 1
+            elif rk == "budgetConsume":
+                counters["boundary"]["budget " + ("granted" if ans.endswith("1") else "refused")] += 1
+            elif rk == "breakerAllow":
+                counters["boundary"]["breaker " + " ".join(ans.split()[1:3])] += 1
         if len(res.samples) < 3 and nontrivial(cr):
             res.samples.append({"cfg": cr.cfg.cfg_line(), "script": [list(s) for s in cr.script],
                                 "exchanges": [f"{r} => {a}" for (_, r, a) in cr.exchanges][:40],
@@ -560,7 +577,7 @@ def run(tier: str, seed: int, props: list[str] | None = None, n_cases: int | Non
     t0 = wall()
     rng = random.Random(seed * 7919 + 11)
     res = LoopResult()
-    counters = {k: Counter() for k in ("entry", "stop", "kind", "req", "raise_at", "twin")}
+    counters = {k: Counter() for k in ("entry", "stop", "kind", "req", "raise_at", "twin", "boundary")}
     n = n_cases if n_cases is not None else int((20000 if tier == "quick" else 250000) * min(scale, 2.0))
     batch: list = []
     for i in range(n):
